@@ -80,6 +80,18 @@ def build_items(tier, seed, wd):
             files = sorted(set(f for r in rules for f in inputs.get(r, [])))
         for p in files:
             add(p, ["--fix", "-c", cfgfile], "sweep%d" % k)
+    # documented option values no unit test uses (docs/configuring_*.rst tables), on every rule that has the option, with both
+    # values of the companion options (harness/configs.py docval_config)
+    dv = [(1, False), (1, True)] if tier == "quick" else [(1, False), (1, True), (2, False), (2, True), (3, False), (3, True)]
+    for k, flip in dv:
+        cfg, rules = configs.docval_config(table, k, flip=flip)
+        tag = "docval%d%s" % (k, "f" if flip else "")
+        sweeps[tag] = cfg["rule"]
+        cfgfile = configs.write_config(cfg, os.path.join(wd, tag + ".json"))
+        untested = sorted(r for r in rules if any(a in ("case_control_statements_ends_group", "new_line_after_comma", "align_to", "alignment", "method", "action") for a in cfg["rule"][r]))
+        files = sorted(set(f for r in (untested if tier == "quick" else rules) for f in inputs.get(r, []) if f.endswith("_test_input.vhd"))) + [p for p in paths if "/styles/code_examples/" in p and p.endswith(".vhd")]
+        for p in (corpus.stratified_sample(files, 150, seed + 61 + k, always=("/styles/code_examples/",)) if tier == "quick" else files):
+            add(p, ["--fix", "-c", cfgfile], tag)
     # prefix / suffix exceptions of the case rules with a broad list of affixes, on files whose identifiers carry them
     for cname in (["upper"] if tier == "quick" else ["upper", "lower"]):
         cfg, rules = configs.affix_config(table, cname)
